@@ -103,8 +103,10 @@ def check(ctx, floors=True, only_literals=False):
             for n in walk(b["body"]):
                 if n.get("k") == "Path" and n.get("r") == "def" and n.get("path", "").endswith("AllocCratePath::Std") and str(n.get("dk", "")).startswith("Ctor"):
                     ctors.append(b["path"])
-    ok = all("AllocCratePath as std::default::Default>::default" in p or "AllocCratePath as std::clone::Clone>::clone" in p for p in ctors) and len(ctors) >= 1
-    ctx.expect(ok, "C09.2", "ctor/AllocCratePath::Std", "", "AllocCratePath::Std is constructed only by its Default impl (and copied by the derived Clone)", "AllocCratePath::Std constructed in %s" % ctors)
+    ok = all("AllocCratePath as std::default::Default>::default" in p or "AllocCratePath as std::clone::Clone>::clone" in p
+             or "TypeGeneratorSettings as std::default::Default>::default" in p for p in ctors) and len(ctors) >= 1
+    ctx.expect(ok, "C09.2", "ctor/AllocCratePath::Std", "", "AllocCratePath::Std is constructed only as a default (its own Default impl, the default settings) and copied by the derived Clone",
+               "AllocCratePath::Std constructed in %s" % ctors)
     # C09.3 alloc-rooted templates
     n_alloc = 0
     for b, node, items, kind in tpls:
